@@ -24,7 +24,7 @@ ASSUMPTIONS = ["the uncached evaluator / refsem give the meaning of trees (C02)"
 RULE = "one item per (skeleton, map shape); non-trivial = map has a key occurring in the tree or the identity clause was evaluated"
 
 MAPS = ["const", "const_varkey", "const_kwargs", "othervar", "incr", "swap", "chain", "subscript_key", "subscript_and_index",
-        "lookup_key", "unused", "all_leaves", "index_then_subscript_key"]
+        "lookup_key", "unused", "all_leaves", "index_then_subscript_key", "nonvar_names"]
 D3 = ["sum2", "prod2", "quot", "pow", "if", "lor2", "cmp_lt", "call1", "sub1", "cse"]
 
 
@@ -43,6 +43,8 @@ def items(tier):
             if m in ("subscript_key", "subscript_and_index", "index_then_subscript_key") and "sub1" not in kinds:
                 continue
             if m == "lookup_key" and "lookup" not in kinds:
+                continue
+            if m == "nonvar_names" and not ({"lookup", "callkw", "callkw0", "cse_pfx"} & set(kinds)):
                 continue
             out.append(("skel", d, m))
     v = lambda n, t="num": ("v", n, t)  # noqa: E731
@@ -127,6 +129,9 @@ def build_map(desc, expr, shape):
         return dict(m), {}, dict(m), []
     if shape == "unused":
         return {"unused_name": 1, V("other_unused"): 2}, {}, {}, []
+    if shape == "nonvar_names":
+        # strings that occur in the tree but do not name a variable: attribute, keyword and prefix names
+        return {"fld": 77, "k": 78, "j": 79, "pfx": 80}, {}, {}, []
     if shape in ("subscript_key", "subscript_and_index", "index_then_subscript_key"):
         subs = find_nodes(expr, p.Subscript)
         if not subs:
